@@ -256,6 +256,9 @@ def install(mode, solver="glpk"):
             if name.startswith("cobra.") and mod is not None and vars(mod).get("np") is _real_np \
                     and not name.startswith(("cobra.io.sbml", "cobra.sampling", "cobra.io.mat")):
                 _rebind(mod, "np", NP)
+        import cobra.io.sbml
+        from . import fakesbml
+        _rebind(cobra.io.sbml, "libsbml", fakesbml)       # documented stand-in for the libsbml object model (DESIGN 10.5)
         import cobra.io.json
         import cobra.io.yaml
         _rebind(cobra.io.json, "json", TextStub("json"))
